@@ -111,6 +111,19 @@ def sibling_pairs(P, module_prefix="instructions::arithmetic"):
     return {k: v for k, v in pairs.items() if len(v) == 2}
 
 
+def canon_op(name):
+    """wrapping_add / overflowing_add (.0) / checked_add / AddO / unchecked_add all compute the sum"""
+    n = str(name).split("::")[-1]
+    for pre in ("wrapping_", "overflowing_", "checked_", "unchecked_", "saturating_"):
+        if n.startswith(pre):
+            n = n[len(pre):]
+    if n.endswith("O") and n[:-1] in ("Add", "Sub", "Mul"):
+        n = n[:-1]
+    if n.endswith("Unchecked"):
+        n = n[:-9]
+    return n.lower()
+
+
 def single_node_diff(a, b):
     """a and b have the same shape and differ in exactly one operator name or one leaf: (kind, in a, in b), else None"""
     if a == b:
@@ -121,6 +134,8 @@ def single_node_diff(a, b):
         return ("leaf", show(a), show(b))
     if a[0] == "op":
         if a[1] != b[1]:
+            if canon_op(a[1]) == canon_op(b[1]):
+                return None  # two spellings of the same operation
             return ("operator", a[1], b[1]) if a[2:] == b[2:] else None
         diffs = [i for i in range(2, len(a)) if a[i] != b[i]]
         if len(diffs) == 1:
